@@ -20,6 +20,8 @@
 package asm
 
 import (
+	"strings"
+
 	"github.com/llir/ll/ast"
 	"github.com/llir/llvm/ir"
 	"github.com/llir/llvm/ir/types"
@@ -188,5 +190,9 @@ func localIdentOfValue(v local) ir.LocalIdent {
 	if v.IsUnnamed() {
 		return ir.LocalIdent{LocalID: v.ID()}
 	}
-	return ir.LocalIdent{LocalName: v.Name()}
+	// Note, v.Name() returns numeric names in quotes (e.g. `"42"`) and would not
+	// match the identifier used to look up the local; decode the identifier
+	// as it is printed instead.
+	const prefix = "%"
+	return ir.LocalIdent{LocalName: unquote(strings.TrimPrefix(v.Ident(), prefix))}
 }
